@@ -498,6 +498,8 @@ def plan_C09(ctx):
 
 
 def plan_C10(ctx):
+    e1_loc_stream(ctx)
+    e2_loc_stream(ctx, n_of(ctx, 40, 400))       # location prefixes of postings whose locations name fields of different id widths (builder AND merger)
     e1_load_layout(ctx)
     e1_stored_codec(ctx)
     e1_chunking(ctx)
